@@ -4208,6 +4208,23 @@ type op0 =
 let empty_state =
   ([], [])
 
+(** val shadow_insert :
+    group list -> item list -> z -> item -> state0 * out0 **)
+
+let shadow_insert lst1 all i it =
+  if Z.leb (zlen lst1) (Zpos XH)
+  then ((lst1, (app all (it :: []))), ONone0)
+  else if Z.eqb i Z0
+       then ((lst1, (py_insert Z0 it all)), ONone0)
+       else (match py_getitem (Z.sub i (Zpos XH)) lst1 with
+             | Some before ->
+               (match py_index0 (fun x -> item_eqb x (IG before)) all with
+                | Some j ->
+                  ((lst1, (py_insert (Z.add (Z.of_nat j) (Zpos XH)) it all)),
+                    ONone0)
+                | None -> ((lst1, all), EValueError))
+             | None -> ((lst1, all), EIndexError))
+
 (** val m_insert : state0 -> z -> arg -> state0 * out0 **)
 
 let m_insert st i a =
@@ -4219,19 +4236,7 @@ let m_insert st i a =
     let lst1 = match it with
                | IG g -> py_insert i0 g lst
                | IW _ -> lst in
-    if Z.leb (zlen lst1) (Zpos XH)
-    then ((lst1, (app all (it :: []))), ONone0)
-    else if Z.eqb i0 Z0
-         then ((lst1, (py_insert Z0 it all)), ONone0)
-         else (match py_getitem (Z.sub i0 (Zpos XH)) lst1 with
-               | Some before ->
-                 (match py_index0 (fun x -> item_eqb x (IG before)) all with
-                  | Some j ->
-                    ((lst1,
-                      (py_insert (Z.add (Z.of_nat j) (Zpos XH)) it all)),
-                      ONone0)
-                  | None -> ((lst1, all), EValueError))
-               | None -> ((lst1, all), EIndexError))
+    shadow_insert lst1 all i0 it
   | None -> (st, ETypeError)
 
 (** val m_append : state0 -> arg -> state0 * out0 **)
